@@ -92,6 +92,8 @@ FINDINGS (known_findings.d/C16.json)
   fixed 417b84b  simplify() returned Piecewise (text not parseable; ZeroDivisionError from the unused branch)
   fixed 6138197  simplify() propagated exceptions of sympy.simplify (ValueError "nan is not comparable",
        PrecisionExhausted) on floor(Min(N, sign(3 - N))/batch) and similar; now best effort (unsimplified dim).
+  known sympy-mod-recursion: SymPy 1.14 alone raises RecursionError constructing Mod(N - 2, M + 1) (positive integer
+       symbols); (N - 2) % (M + 1) through SymbolicDim raises it too.  Attributed only when SymPy alone raises it.
   known sympy-autoeval-min/-max/-mod: SymPy 1.14 itself evaluates Min(3, floor(3/(batch*x1))) to 3,
        Max(K, K/Max(D, K)) at K=1,D=2 to 1/2, Mod(-_d*Mod(_d, a), a) to (a-1)*Mod(_d**2, a).  Attribution rule: a
        failure is one of these only if every minimal failing subtree is rooted at that operator AND SymPy alone
@@ -1350,6 +1352,19 @@ def _sympy_simplify_raises(case: dict, obs: dict) -> str | None:
     return None
 
 
+def _sympy_build_raises(t) -> str | None:
+    """Exception class raised by SymPy ALONE while constructing what ir-py asks it to build for `t`."""
+    try:
+        _with_alarm(20, lambda: sympy_build(to_model(t)))
+    except _Timeout:
+        return None
+    except RecursionError:
+        return "RecursionError"
+    except Exception as e:  # noqa: BLE001
+        return type(e).__name__
+    return None
+
+
 def _known_keys(ck) -> set[str]:
     return {k["key"] for k in ck._known if k.get("status") == "known"}
 
@@ -1366,6 +1381,9 @@ def _known_key(ck, case: dict, obs: dict, bad: list[str]) -> str | None:
     known = _known_keys(ck)
     keys = []
     rest = list(bad)
+    if "sympy-mod-recursion" in known and obs.get("build", [""])[:2] == ["raise", "RecursionError"] \
+            and "mod" in ops_of(case["tree"]) and _sympy_build_raises(case["tree"]) == "RecursionError":
+        return "sympy-mod-recursion"
     st = obs.get("simplify_text") or ""
     if "simplify-returns-piecewise" in known and "Piecewise" in st:
         # both symptoms of the one site: the text is not parseable / the unused branch divides by zero
@@ -1990,12 +2008,19 @@ def check_int_semantics(ck, report) -> None:
             v1 = v2 = ["raise", type(e).__name__]
         r["observed"], r["observed_text"] = v1, v2
         ck.count()
+        if v1[0] == "raise":
+            obs_ = {"build": ["raise", v1[1]]}
+            key = _known_key(ck, case, obs_, ["build: raised"])
+            if key:
+                ck.hist("known_finding_hits", key)
+                r["skip"] = True
         ck.hist("int_semantics_ops", r["op"] + (":x<0" if r["x"] < 0 else ":x>=0") + (":y<0" if r["y"] < 0 else ":y>=0"))
         ck.nontriv(("intsem", r["op"], r["x"], r["y"]))
 
         def oz(o):
             return f"(Some {cZ(o[1])})" if o[0] == "int" else "None"
-        items.append("(" + ", ".join([cN(INT_OPS.index(r["op"])), cZ(r["x"]), cZ(r["y"]), oz(v1), oz(v2)]) + ")")
+        if not r.get("skip"):
+            items.append("(" + ", ".join([cN(INT_OPS.index(r["op"])), cZ(r["x"]), cZ(r["y"]), oz(v1), oz(v2)]) + ")")
     text = ("From Coq Require Import ZArith NArith List Bool.\nFrom IRV Require Import Base.Exn.\nImport ListNotations.\n"
             "Open Scope Z_scope.\n"
             "Definition cases : list (N * Z * Z * option Z * option Z) :=\n  " + clist(items).replace("; (", ";\n  (") + ".\n"
@@ -2010,6 +2035,7 @@ def check_int_semantics(ck, report) -> None:
     except RuntimeError as e:
         ck.broken("correspondence:case-file", str(e))
         return
+    rows = [r for r in rows if not r.get("skip")]
     ck.coverage["int_semantics_cases_in_coq"] = len(rows)
     for i in bad[:5]:
         r = rows[i]
